@@ -1,3 +1,368 @@
-import HapVerif.Model.C14
+import HapVerif.Lemmas.C14
+import HapVerif.Generated.Facts
+/-!
+# C14 — every Kubernetes event lands in exactly one reconciliation batch
+
+Model: `HapVerif.C14.run c ops` — the watchers' accumulator (`w.ch`) driven by an arbitrary
+sequence `ops : List Op` of ATOMIC steps: `Op.ev e` = one event offered by an informer goroutine
+(predicates, then `hdlr.Create/Update/Delete/Generic` under `watchers.mu`), `Op.swap` =
+`getChangedObjects` (copy + `initCh` under the same mutex).  Every interleaving of the per-kind
+informer goroutines with reconciliations is such a sequence, so a statement `∀ ops` is a statement
+about every interleaving.  (That the steps are atomic — the mutex — is modelled, not verified;
+it is exercised by the concurrent harness run under the race detector.)
+
+"Accepted" = `accepts c e` (the handler's predicate list, checked against the real predicates by
+the harness on every case).  An event is located by the ops before it (`pre`), the ops up to the
+next swap (`mid`, swap-free) and the rest (`post`); the batch that swap returns has index
+`swapCount pre`.
+-/
 namespace HapVerif.C14
+
+/-! ## (1) exactly once -/
+
+/-- **No event is lost, and it is in the NEXT batch.**  Every accepted create/update/delete event
+has its resource link, its change description and (for the kinds that have typed lists) its
+list entry in the batch returned by the first swap after it — whatever happened before
+(`pre`), between (`mid`) and after (`post`). -/
+theorem delivered_in_next_batch (c : Cfg) (pre mid post : List Op) (e : Event)
+    (ha : accepts c e = true) (hg : e.typ ≠ .generic) (hm : ∀ o ∈ mid, o ≠ Op.swap) :
+    ∃ b, (run c (pre ++ .ev e :: (mid ++ .swap :: post))).1[swapCount pre]? = some b ∧
+      linkOf e ∈ b.links ∧ descrOf e ∈ b.objects ∧ (∀ x, entryOf e = some x → x ∈ b.typed) ∧
+      (e.kind.full = true → b.full = true) := by
+  obtain ⟨w, hw, hew⟩ := windows_decomp (accepts c) pre mid post e ha hm
+  have hlen := batchesOf_length (windows (accepts c) (pre ++ .ev e :: (mid ++ .swap :: post))).1 none none
+  have hlt : swapCount pre < (windows (accepts c) (pre ++ .ev e :: (mid ++ .swap :: post))).1.length := by
+    have := List.getElem?_eq_some_iff.mp hw; exact this.1
+  rw [run_batches]
+  have hlt' : swapCount pre < (batchesOf none none (windows (accepts c) (pre ++ .ev e :: (mid ++ .swap :: post))).1).length := by
+    rw [hlen]; exact hlt
+  refine ⟨_, List.getElem?_eq_getElem hlt', ?_⟩
+  obtain ⟨w', g', t', h1, h2⟩ := batchesOf_getElem? _ none none (swapCount pre) _ (List.getElem?_eq_getElem hlt')
+  rw [hw] at h1
+  cases h1
+  rw [h2]
+  refine ⟨?_, ?_, ?_, ?_⟩
+  · rw [mem_accum_links]; exact Or.inr ⟨e, hew, hg, rfl⟩
+  · rw [mem_accum_objects]; exact Or.inr ⟨e, hew, hg, rfl⟩
+  · intro x hx
+    rw [accum_typed, List.mem_append, List.mem_filterMap]
+    exact Or.inr ⟨e, hew, hx⟩
+  · intro hf
+    rw [accum_full]
+    have : w.any forcesFull = true := List.any_eq_true.mpr ⟨e, hew, by simp [forcesFull, hf]⟩
+    simp [this]
+
+/-- **Nothing else is in a batch.**  The k-th returned batch is exactly what the accepted events
+of the k-th window (those between swap k-1 and swap k) produce: its typed lists are their entries
+in arrival order (no duplicate, nothing missing), its links/descriptions are the de-duplicated
+links/descriptions of those events and of no other event, `NeedFullSync` is set iff one of them
+demands it, `…New` is the data of the last ConfigMap event of the window. -/
+theorem batch_is_its_window (c : Cfg) (ops : List Op) (k : Nat) (b : Batch)
+    (hb : (run c ops).1[k]? = some b) :
+    ∃ w, (windows (accepts c) ops).1[k]? = some w ∧
+      b.typed = w.filterMap entryOf ∧
+      (∀ x, x ∈ b.links ↔ ∃ e ∈ w, e.typ ≠ .generic ∧ linkOf e = x) ∧
+      (∀ x, x ∈ b.objects ↔ ∃ e ∈ w, e.typ ≠ .generic ∧ descrOf e = x) ∧
+      b.links.Nodup ∧ b.objects.Nodup ∧
+      b.full = w.any forcesFull ∧
+      b.gNew = newData true none w ∧ b.tNew = newData false none w := by
+  rw [run_batches] at hb
+  obtain ⟨w, g, t, hw, rfl⟩ := batchesOf_getElem? _ _ _ _ _ hb
+  refine ⟨w, hw, ?_, ?_, ?_, ?_, ?_, ?_, ?_, ?_⟩
+  · simp [accum_typed, fresh]
+  · intro x; simp [mem_accum_links, fresh]
+  · intro x; simp [mem_accum_objects, fresh]
+  · exact nodup_accum_links _ _ (by simp [fresh])
+  · exact nodup_accum_objects _ _ (by simp [fresh])
+  · simp [accum_full, fresh]
+  · simp [accum_gNew, fresh]
+  · simp [accum_tNew, fresh]
+
+/-- one batch per swap -/
+theorem batch_count (c : Cfg) (ops : List Op) : (run c ops).1.length = swapCount ops := by
+  rw [run_batches, batchesOf_length]; exact windowsFrom_length _ _ _
+
+/-- the windows partition the accepted events in order: every accepted event is in exactly one
+window (or still pending after the last swap) -/
+theorem windows_partition (acc : Event → Bool) (ops : List Op) :
+    (windows acc ops).1.flatten ++ (windows acc ops).2 = (eventsOf ops).filter acc := by
+  unfold windows; simpa using windowsFrom_partition acc ops []
+
+/-- **Conservation.**  The typed-list entries of all returned batches, followed by the ones still
+pending, are the entries of the accepted events — same order, same multiplicity. -/
+theorem typed_conservation (c : Cfg) (ops : List Op) :
+    (run c ops).1.flatMap (·.typed) ++ (run c ops).2.ch.typed =
+      ((eventsOf ops).filter (accepts c)).filterMap entryOf := by
+  obtain ⟨g', t', hfin⟩ := runFrom_final c ops {} [] none none rfl
+  have hfin' : (run c ops).2.ch = accum (fresh g' t') (windows (accepts c) ops).2 := hfin
+  rw [hfin', run_batches, batchesOf_typed, accum_typed, ← windows_partition, List.filterMap_append]
+  simp [fresh]
+
+theorem entryOf_id (e : Event) (x : Entry) (h : entryOf e = some x) : x.id = e.id := by
+  unfold entryOf at h
+  cases hf : e.kind.fam with
+  | none => simp [hf] at h
+  | some f =>
+    simp only [hf] at h
+    cases ht : e.typ <;> simp only [ht] at h
+    · cases h; rfl
+    · split at h
+      · cases h; rfl
+      · split at h
+        · cases h; rfl
+        · split at h
+          · cases h; rfl
+          · cases h
+    · cases h; rfl
+    · cases h
+
+theorem nodup_filterMap_entryOf (l : List Event) (h : (l.map (·.id)).Nodup) :
+    (l.filterMap entryOf).Nodup := by
+  induction l with
+  | nil => simp
+  | cons e l ih =>
+    simp only [List.map_cons, List.nodup_cons] at h
+    rw [List.filterMap_cons]
+    cases he : entryOf e with
+    | none => exact ih h.2
+    | some x =>
+      simp only
+      rw [List.nodup_cons]
+      refine ⟨?_, ih h.2⟩
+      intro hx
+      obtain ⟨e', he', hx'⟩ := List.mem_filterMap.mp hx
+      apply h.1
+      have h1 := entryOf_id e x he
+      have h2 := entryOf_id e' x hx'
+      exact List.mem_map.mpr ⟨e', he', by rw [← h2, h1]⟩
+
+/-- **No duplication.**  When the events are distinct (distinct ids), no list entry occurs twice:
+not twice in one batch, not in two batches, not in a batch and again in the pending state. -/
+theorem typed_exactly_once (c : Cfg) (ops : List Op) (hid : ((eventsOf ops).map (·.id)).Nodup) :
+    ((run c ops).1.flatMap (·.typed) ++ (run c ops).2.ch.typed).Nodup := by
+  rw [typed_conservation]
+  apply nodup_filterMap_entryOf
+  have hsub : ((eventsOf ops).filter (accepts c)).map (·.id) |>.Sublist ((eventsOf ops).map (·.id)) :=
+    (List.filter_sublist).map _
+  exact hsub.nodup hid
+
+/-- `getChangedObjects` leaves an empty accumulator: only the two `…Cur` fields survive a swap -/
+theorem swap_resets (s : St) :
+    (swap s).2.ch.typed = [] ∧ (swap s).2.ch.links = [] ∧ (swap s).2.ch.objects = [] ∧
+    (swap s).2.ch.full = false ∧ (swap s).2.ch.gNew = none ∧ (swap s).2.ch.tNew = none ∧ (swap s).2.q = s.q :=
+  ⟨rfl, rfl, rfl, rfl, rfl, rfl, rfl⟩
+
+/-- every accepted event enqueues exactly one reconciliation request, carrying its kind's
+full-sync flag -/
+theorem notify_once (c : Cfg) (ops : List Op) :
+    (run c ops).2.q = ((eventsOf ops).filter (accepts c)).map (·.kind.full) := by
+  suffices h : ∀ (ops : List Op) (s : St),
+      (runFrom c s ops).2.q = s.q ++ ((eventsOf ops).filter (accepts c)).map (·.kind.full) by
+    simpa [run] using h ops {}
+  intro ops
+  induction ops with
+  | nil => intro s; simp [runFrom, eventsOf]
+  | cons o ops ih =>
+    intro s
+    cases o with
+    | swap => simp only [runFrom, eventsOf, ih]; rfl
+    | ev e =>
+      simp only [runFrom, eventsOf, ih, List.filter_cons]
+      unfold onEvent
+      by_cases h : accepts c e <;> simp [h]
+
+/-! ## (2) ConfigMap chaining -/
+
+/-- the oracle's chain predicate holds on the batches of every op sequence -/
+theorem chain_holds (c : Cfg) (ops : List Op) : checkChain none none (run c ops).1 = true := by
+  rw [run_batches]; exact batchesOf_chain _ none none
+
+theorem checkChain_step : ∀ (bs : List Batch) (g t : Option Nat) (k : Nat) (b b' : Batch),
+    checkChain g t bs = true → bs[k]? = some b → bs[k+1]? = some b' →
+    b'.gCur = pick b.gNew b.gCur ∧ b'.tCur = pick b.tNew b.tCur := by
+  intro bs
+  induction bs with
+  | nil => intro g t k b b' _ h; simp at h
+  | cons a bs ih =>
+    intro g t k b b' hc h1 h2
+    simp only [checkChain, Bool.and_eq_true, beq_iff_eq] at hc
+    cases k with
+    | succ k => exact ih _ _ k b b' hc.2 (by simpa using h1) (by simpa using h2)
+    | zero =>
+      simp only [List.getElem?_cons_zero, Option.some.injEq] at h1
+      subst h1
+      cases bs with
+      | nil => simp at h2
+      | cons a' bs =>
+        simp only [Nat.zero_add, List.getElem?_cons_succ, List.getElem?_cons_zero, Option.some.injEq] at h2
+        subst h2
+        simp only [checkChain, Bool.and_eq_true, beq_iff_eq] at hc
+        obtain ⟨⟨hg, ht⟩, ⟨hg', ht'⟩, _⟩ := hc
+        rw [hg, ht]
+        exact ⟨hg', ht'⟩
+
+/-- **Chaining.**  `…Cur` of batch k+1 is the `…New` batch k delivered, or batch k's `…Cur`
+when it delivered none; the first batch starts from nil. -/
+theorem chain_step (c : Cfg) (ops : List Op) (k : Nat) (b b' : Batch)
+    (h1 : (run c ops).1[k]? = some b) (h2 : (run c ops).1[k+1]? = some b') :
+    b'.gCur = pick b.gNew b.gCur ∧ b'.tCur = pick b.tNew b.tCur :=
+  checkChain_step _ _ _ k b b' (chain_holds c ops) h1 h2
+
+theorem chain_first (c : Cfg) (ops : List Op) (b : Batch) (h : (run c ops).1[0]? = some b) :
+    b.gCur = none ∧ b.tCur = none := by
+  have := chain_holds c ops
+  cases hbs : (run c ops).1 with
+  | nil => simp [hbs] at h
+  | cons a bs =>
+    simp only [hbs, List.getElem?_cons_zero, Option.some.injEq] at h
+    subst h
+    simp only [hbs, checkChain, Bool.and_eq_true, beq_iff_eq] at this
+    exact ⟨this.1.1, this.1.2⟩
+
+/- Full strength (what C14 demands of the ConfigMap data):
+
+     theorem configmap_delivered (c ops k b w) :
+       (run c ops).1[k]? = some b → (windows (accepts c) ops).1[k]? = some w →
+       b.gNew = specNew true w ∧ b.tNew = specNew false w
+
+   FALSE for the current code: a ConfigMap whose `.Data` is nil (all keys removed) is written as a
+   nil `…New`, which the converters read as "unchanged" (`configmap_emptied_not_delivered`).
+   Proved under the side condition that the last ConfigMap event of the window carries data. -/
+theorem configmap_delivered_partial (c : Cfg) (ops : List Op) (k : Nat) (b : Batch) (w : List Event)
+    (hb : (run c ops).1[k]? = some b) (hw : (windows (accepts c) ops).1[k]? = some w)
+    (hd : ∀ g e, lastSet g w = some e → e.data.isSome) :
+    b.gNew = specNew true w ∧ b.tNew = specNew false w := by
+  obtain ⟨w', hw', _, _, _, _, _, _, hg, ht⟩ := batch_is_its_window c ops k b hb
+  rw [hw] at hw'; cases hw'
+  rw [hg, ht, newData_eq_last, newData_eq_last]
+  unfold specNew
+  constructor
+  · cases h : (w.filter (setsCm true)).getLast? with
+    | none => rfl
+    | some e =>
+      have := hd true e h
+      cases hdata : e.data with
+      | none => simp [hdata] at this
+      | some d => simp [hdata]
+  · cases h : (w.filter (setsCm false)).getLast? with
+    | none => rfl
+    | some e =>
+      have := hd false e h
+      cases hdata : e.data with
+      | none => simp [hdata] at this
+      | some d => simp [hdata]
+
+/-- counter-example (known finding `configmap-emptied-update-not-delivered`): the global ConfigMap
+is created with data 3 and later updated to nil data; the batch after the update carries
+`GlobalConfigMapDataNew = nil`, `Cur = 3`, and so does every later batch: the old data stays current. -/
+theorem configmap_emptied_not_delivered :
+    let ops := [Op.ev { id := 0, kind := .cm, typ := .create, ns := some 0, name := 0, data := some 3 }, .swap,
+                Op.ev { id := 2, kind := .cm, typ := .update, ns := some 0, name := 0, data := none }, .swap, .swap]
+    ((run {} ops).1.map fun b => (b.gCur, b.gNew)) = [(none, some 3), (some 3, none), (some 3, none)] ∧
+    (windows (accepts {}) ops).1.map (specNew true) = [some 3, some 0, none] := by
+  decide
+
+/-! ## (3) class transitions -/
+
+/-- the typed-list classification of the code is the one the property demands -/
+theorem entryOf_eq_specEntry (e : Event) : entryOf e = specEntry e := by
+  unfold entryOf specEntry specAct
+  cases hf : e.kind.fam with
+  | none => rfl
+  | some f =>
+    cases ht : e.typ <;> cases hvo : e.vOld <;> cases hvn : e.vNew <;> simp
+
+/-- **Class in ⇒ add, class out ⇒ delete.**  An accepted update whose validity flips is delivered,
+in the next batch, in the family's `Add` list (new object) when the object becomes valid and in
+the `Del` list (OLD object) when it stops being valid — and is in no `Upd` list of any batch. -/
+theorem class_transition_listed (c : Cfg) (pre mid post : List Op) (e : Event) (f : Fam)
+    (ha : accepts c e = true) (hu : e.typ = .update) (hf : e.kind.fam = some f)
+    (hflip : e.vOld ≠ e.vNew) (hm : ∀ o ∈ mid, o ≠ Op.swap) :
+    ∃ b, (run c (pre ++ .ev e :: (mid ++ .swap :: post))).1[swapCount pre]? = some b ∧
+      (if e.vNew then (⟨f, .add, e.id, false⟩ : Entry) ∈ b.typed else (⟨f, .del, e.id, true⟩ : Entry) ∈ b.typed) ∧
+      entryOf e ≠ some ⟨f, .upd, e.id, false⟩ ∧ entryOf e ≠ some ⟨f, .upd, e.id, true⟩ := by
+  obtain ⟨b, hb, _, _, hx, _⟩ := delivered_in_next_batch c pre mid post e ha (by simp [hu]) hm
+  refine ⟨b, hb, ?_⟩
+  unfold entryOf at hx ⊢
+  simp only [hf, hu] at hx ⊢
+  cases hvo : e.vOld <;> cases hvn : e.vNew <;> simp [hvo, hvn] at hflip hx ⊢
+  · exact hx
+  · exact hx
+
+/- Full strength (the change description of a class transition is add / del too):
+
+     theorem class_transition_described (… same hypotheses …) : specDescr e ∈ b.objects
+
+   FALSE for the current code: `hdlr.Update` always calls `compose("update", …)`, so an Ingress
+   entering the class is listed in `IngressesAdd` but described as `update/Ingress:…`; the status
+   updater looks for the `add/Ingress:` prefix (`class_transition_described_as_update`).
+   The description agrees with the classification for every event that is not a validity flip. -/
+theorem description_partial (e : Event) (h : isFlip e = false) : descrOf e = specDescr e := by
+  unfold descrOf specDescr specAct actOf isFlip at *
+  cases ht : e.typ <;> simp [ht] at h ⊢
+  cases hf : e.kind.fam with
+  | none => simp
+  | some f =>
+    simp [hf] at h
+    simp [h]
+
+/-- counter-example (known finding `class-transition-described-as-update`) -/
+theorem class_transition_described_as_update :
+    let e : Event := { id := 0, kind := .ing, typ := .update, ns := some 0, name := 2, vOld := false, vNew := true }
+    (run {} [.ev e, .swap]).1.map (fun b => (b.typed, b.objects)) =
+        [([⟨.ing, .add, 0, false⟩], [(.upd, .ingress, ⟨some 0, 2⟩)])] ∧
+    specDescr e = (.add, .ingress, ⟨some 0, 2⟩) := by
+  decide
+
+/-! ## non-vacuity -/
+
+/-- two informers and a reconciliation interleaved: the Ingress event that arrives before the
+swap is in batch 0, the Secret event after it in batch 1; both batches are non-empty -/
+example :
+    let i : Event := { id := 0, kind := .ing, typ := .create, ns := some 0, name := 2 }
+    let s : Event := { id := 2, kind := .secret, typ := .update, ns := some 0, name := 3 }
+    accepts {} i = true ∧ accepts {} s = true ∧
+    (run {} [.ev i, .swap, .ev s, .swap]).1.map (fun b => (b.typed, b.links)) =
+      [([⟨.ing, .add, 0, false⟩], [(.ingress, ⟨some 0, 2⟩)]), ([], [(.secret, ⟨some 0, 3⟩)])] := by
+  decide
+
+/-- the hypotheses of `class_transition_listed` are satisfiable (an Ingress leaving the class) -/
+example :
+    let e : Event := { id := 5, kind := .ing, typ := .update, ns := some 1, name := 2, vOld := true, vNew := false }
+    accepts {} e = true ∧ e.kind.fam = some .ing ∧ e.vOld ≠ e.vNew ∧
+    (run {} [.ev e, .swap]).1.map (·.typed) = [[⟨.ing, .del, 5, true⟩]] := by
+  decide
+
+/-- chaining is exercised: data 1, then nothing, then data 2 -/
+example :
+    let u (i d : Nat) : Op := .ev { id := i, kind := .cm, typ := .update, ns := some 0, name := 1, data := some d }
+    (run {} [u 0 1, .swap, .swap, u 3 2, .swap, .swap]).1.map (fun b => (b.tCur, b.tNew)) =
+      [(none, some 1), (some 1, none), (some 1, some 2), (some 2, none)] := by
+  decide
+
+/-- an update with both objects outside the class is NOT accepted for an Ingress (predicate) -/
+example : accepts {} { id := 0, kind := .ing, typ := .update, ns := some 0, name := 2, vOld := false, vNew := false } = false := by
+  decide
+
+/-! ## regenerated facts -/
+
+/-- the parts of watchers.go the model depends on syntactically: every handler entry point and
+`getChangedObjects` take `watchers.mu` first; Create/Update/Delete call the closure, `compose`
+with the literal `add`/`update`/`del`, then `notify`; `compose` de-duplicates; `initCh` carries
+the two `…Cur` fields -/
+theorem facts_c14 :
+    Facts.c14CreateCalls = ["h.w.mu.Lock", "h.w.mu.Unlock", "h.add", "h.compose", "h.notify"] ∧
+    Facts.c14UpdateCalls = ["h.w.mu.Lock", "h.w.mu.Unlock", "h.upd", "h.compose", "h.notify"] ∧
+    Facts.c14DeleteCalls = ["h.w.mu.Lock", "h.w.mu.Unlock", "h.del", "h.compose", "h.notify"] ∧
+    Facts.c14GenericCalls = ["h.w.mu.Lock", "h.w.mu.Unlock", "h.notify"] ∧
+    Facts.c14SwapCalls = ["w.mu.Lock", "w.mu.Unlock", "w.initCh"] ∧
+    Facts.c14ComposeLiterals = ["add", "update", "del"] ∧
+    Facts.c14InitChAssigns = ["newch.GlobalConfigMapDataCur=w.ch.GlobalConfigMapDataNew",
+      "newch.GlobalConfigMapDataCur=w.ch.GlobalConfigMapDataCur",
+      "newch.TCPConfigMapDataCur=w.ch.TCPConfigMapDataNew",
+      "newch.TCPConfigMapDataCur=w.ch.TCPConfigMapDataCur",
+      "w.ch=newch", "w.ch.Links=?"] ∧
+    Facts.c14CmChangeAssigns = ["w.ch.GlobalConfigMapDataNew=cm.Data", "w.ch.TCPConfigMapDataNew=cm.Data"] := by
+  decide
+
 end HapVerif.C14
